@@ -16,6 +16,7 @@ import (
 //	N<id> start without payload     X<id> stop/complete
 //	P ping  O pong  T connection_terminate  W a server->client type (data / next)  K connection_ack  Y unknown type
 //	G not JSON   A abrupt close   Z close frame   C server cancel   M init timeout wait   ? snapshot
+//	H hold the next server-side socket write   R release it
 //	e<j> emit  d<j> end  r<j> err  a<j> adderr  p<j> panic      (j-th valid start of the script)
 //	a trailing ~ = no settle after the step
 type builder struct {
@@ -98,6 +99,10 @@ func (b *builder) add(sym string) {
 		t = "sc"
 	case 'M':
 		t = "it"
+	case 'H':
+		t = "h"
+	case 'R':
+		t = "u"
 	case '?':
 		b.out = append(b.out, "?")
 		return
@@ -229,6 +234,26 @@ func generate(tier string, seed uint64) []string {
 					}
 				}
 			}
+		}
+		// ---- a back-pressured peer: one server-side write (a result, a terminating frame, a tick, the ack) is held
+		// inside the socket while the client / another operation / the server does something that writes or
+		// closes as well; nothing may be written concurrently, everything queues and comes out afterwards
+		held := []string{"e0", "d0", "r0", "p0", "X1", "P"}
+		mean := []string{"P", "O", "X1", "X2", "S2", "S1", "B2", "e1", "d1", "T", "C", "G", "W", "A"}
+		for _, cfg := range []string{"", "k", "op"} {
+			for _, hd := range held {
+				for _, m := range mean {
+					out = append(out, script(p, cfg, "I", "S1", "S2", "H", hd+"~", m+"~", "R", "?", "e0", "e1", "d0", "d1"))
+				}
+				if thorough {
+					for _, m1 := range mean {
+						for _, m2 := range mean {
+							out = append(out, script(p, cfg, "I", "S1", "S2", "H", hd+"~", m1+"~", m2+"~", "R", "?", "e0", "e1"))
+						}
+					}
+				}
+			}
+			out = append(out, script(p, cfg, "H", "I~", "P~", "S1~", "R", "e0", "d0"))
 		}
 		// ---- directed adversarial shapes
 		for _, cfg := range []string{"", "s", "k", "op", "r", "sr", "v", "d", "ds"} {
